@@ -16,7 +16,7 @@ from vlib.simnet import FakeSocket, FakeTransport
 P = "C05"
 A2C = bytes(range(100, 132))
 C2A = bytes(range(200, 232))
-BOUNDARY_SIZES = [1, 2, 15, 16, 17, 1023, 1024]
+BOUNDARY_SIZES = [1, 2, 15, 16, 17, 1023, 1024, 0]
 
 
 class _Fut:
@@ -45,7 +45,9 @@ def frames_with_bounds(key, data, sizes, ctr=0):
     i = k = 0
     sizes = list(sizes) or [1024]
     while i < len(data):
-        n = max(1, min(1024, sizes[k % len(sizes)]))
+        n = max(0, min(1024, sizes[k % len(sizes)]))      # 0: a block with an empty plaintext (legal framing; it consumes a nonce like any other)
+        if n == 0 and all(x == 0 for x in sizes):
+            n = 1024
         k += 1
         c = data[i:i + n]
         aad = struct.pack("<H", len(c))
@@ -223,6 +225,11 @@ def run_corrupt(case, R):
 def corrupt_cases(draw):
     msgs = draw(st.lists(message(small=True), min_size=1, max_size=3))
     sizes = draw(st.lists(st.sampled_from([8, 16, 17, 40, 100, 1024]), min_size=1, max_size=3))
+    if draw(st.integers(0, 2)) == 0:
+        # full-size frames: a body of several kilobytes in 1024-byte blocks
+        big = dict(msgs[0], mode="cl", body=bytes((i * 7) & 0xFF for i in range(draw(st.sampled_from([1024, 2048, 2500, 3100])))))
+        msgs = [big] + msgs[1:2]
+        sizes = [1024]
     return {"msgs": msgs, "sizes": sizes, "frame": draw(st.integers(0, 50)), "region": draw(st.sampled_from(["len", "tag", "ct", "ct"])),
             "cuts": draw(st.lists(st.integers(1, 5000), max_size=4)), "idle": draw(st.booleans())}
 
